@@ -37,7 +37,7 @@ def _source_files(root):
     for dp, dns, fns in os.walk(root):
         dns[:] = [d for d in dns if d not in ("target", ".git", "node_modules")]
         for fn in fns:
-            if fn == "Cargo.lock" and root != REPO:
+            if fn == "Cargo.lock" and root == FIXTURE:
                 continue  # derived copy
             if fn.endswith(".rs") or fn in ("Cargo.toml", "Cargo.lock"):
                 out.append(os.path.join(dp, fn))
@@ -45,11 +45,12 @@ def _source_files(root):
     return out
 
 
-def tree_hash(features=""):
+def tree_hash(features="", repo=None):
+    repo = repo or REPO
     h = hashlib.sha256()
-    for root in (REPO, FIXTURE, os.path.join(VERIF, "tools", "gfacts", "src")):
+    for root in (repo, FIXTURE, os.path.join(VERIF, "tools", "gfacts", "src")):
         for p in _source_files(root):
-            h.update(p.encode())
+            h.update(os.path.relpath(p, root).encode())
             h.update(b"\0")
             with open(p, "rb") as f:
                 h.update(f.read())
@@ -87,14 +88,15 @@ class ExtractionError(Exception):
     pass
 
 
-def ensure_facts(features=""):
+def ensure_facts(features="", repo=None):
     """Return the directory holding fact files for the current /repo tree (extracting if needed)."""
+    repo = repo or REPO
     if not os.path.exists(DRIVER):
         raise ExtractionError("gfacts driver not built: run MANIFEST.setup_cmd (%s missing)" % DRIVER)
     os.makedirs(CACHE, exist_ok=True)
-    key = tree_hash(features)
+    key = tree_hash(features, repo)
     d = os.path.join(CACHE, key)
-    lock = open(os.path.join(CACHE, ".lock"), "w")
+    lock = open(os.path.join(CACHE, ".lock-" + key), "w")
     fcntl.flock(lock, fcntl.LOCK_EX)
     try:
         if os.path.exists(os.path.join(d, "DONE")):
@@ -104,7 +106,7 @@ def ensure_facts(features=""):
             (e for e in glob.glob(os.path.join(CACHE, "*")) if os.path.isdir(e)),
             key=os.path.getmtime,
         )
-        for e in ents[:-6]:
+        for e in ents[:-24]:
             shutil.rmtree(e, ignore_errors=True)
         if os.path.exists(d):
             shutil.rmtree(d)
@@ -114,13 +116,13 @@ def ensure_facts(features=""):
         args = ["--workspace"]
         if features == "all":
             args.append("--all-features")
-        rc = _run_driver(REPO, d, args, log)
+        rc = _run_driver(repo, d, args, log)
         if rc != 0:
             open(os.path.join(d, "FAILED.log"), "w").write("\n".join(log))
             raise ExtractionError("cargo check of /repo with the gfacts wrapper failed:\n" + "\n".join(log)[-3000:])
         if os.path.isdir(FIXTURE):
             # the fixture path-depends on /repo/traits; give it the repo's lock file
-            shutil.copyfile(os.path.join(REPO, "Cargo.lock"), os.path.join(FIXTURE, "Cargo.lock"))
+            shutil.copyfile(os.path.join(repo, "Cargo.lock"), os.path.join(FIXTURE, "Cargo.lock"))
             rc = _run_driver(FIXTURE, d, [], log)
             if rc != 0:
                 open(os.path.join(d, "FAILED.log"), "w").write("\n".join(log))
@@ -200,8 +202,8 @@ class Facts:
         }
 
 
-def load(features=""):
-    d = ensure_facts(features)
+def load(features="", repo=None):
+    d = ensure_facts(features, repo)
     import gc
 
     gc.disable()
